@@ -6,6 +6,7 @@
 From Coq Require Import List NArith ZArith Bool String.
 Import ListNotations.
 From JR Require Import Reader Reader_Proofs.
+From JR Require Rendezvous Rendezvous_Proofs.
 From JRGen Require Extracted.
 
 (* every close(w.wait) in httpio sits inside a sync.Once.Do callback, and there are exactly the two sites modelled *)
@@ -22,6 +23,21 @@ Theorem c20_source_arrival_atomic :
      ["ch, found := readers[u]"; "if !found { ch = make(chan *waitReadCloser); readers[u] = ch }"]]%string /\
   JRGen.Extracted.reader_table_stores_outside_lock = 0%Z.
 Proof. split; reflexivity. Qed.
+
+(* ---- the rendezvous table itself (Rendezvous.v), one level below `arrive`: uuid -> channel; each party looks its uuid up
+   and creates the missing entry, then uses the channel it holds. With lookup-and-create as ONE step (the code:
+   c20_source_arrival_atomic) any number of parties and uuids arriving in any order — ties are orders — end up, per uuid,
+   on one channel: the upload and the request meet whichever comes first. *)
+Theorem c20_arrivals_meet : forall es p q u c1 c2,
+  Rendezvous.only_arrive es = true ->
+  In (p, (u, c1)) (Rendezvous.held (Rendezvous.rzrun es)) -> In (q, (u, c2)) (Rendezvous.held (Rendezvous.rzrun es)) -> c1 = c2.
+Proof. exact Rendezvous_Proofs.arrivals_meet. Qed.
+
+(* the variant with the lookup and the creation in two steps (seeded change C20-d): both look, both create, two channels *)
+Theorem c20_refuted_split_arrival :
+  exists es c1 c2, In (1%N, (7%N, c1)) (Rendezvous.held (Rendezvous.rzrun es)) /\
+                   In (2%N, (7%N, c2)) (Rendezvous.held (Rendezvous.rzrun es)) /\ c1 <> c2.
+Proof. exact Rendezvous_Proofs.split_arrivals_miss. Qed.
 
 (* what the handler's reads returned so far, followed by what is still to come, is exactly the payload
    (so: a prefix, nothing invented, duplicated or reordered), and no operation panics *)
@@ -80,6 +96,8 @@ Proof. eexists. eexists. vm_compute. repeat split. Qed.
 
 Print Assumptions c20_source_once.
 Print Assumptions c20_source_arrival_atomic.
+Print Assumptions c20_arrivals_meet.
+Print Assumptions c20_refuted_split_arrival.
 Print Assumptions c20_bytes_exact_prefix.
 Print Assumptions c20_bytes_exact_on_eof.
 Print Assumptions c20_eof_sticky.
